@@ -10,4 +10,19 @@ GLOBAL_ASSUMPTIONS = [
     "RESIST_SIDE_CHANNELS branches are not extracted (macro undefined in every shipped configuration)",
     "compiler / assembler correctness",
 ]
-META = {}
+GROUP_ASSUME = [
+    "GROUP rung: G1, G2, GT are treated as Z_r-modules over formal generators; the contracts applied at this boundary are the statements of the lower rungs (C05 group law, C06 [k]P for every 256-bit k, C07 a^k, C01/C08 bilinearity of pairing and pairing_product)",
+    "negative claims (does not decrypt / does not verify) are in the generic-group reading: the residual is a non-zero polynomial in the formal discrete logs (Schwartz-Zippel); collisions for special parameter values are not excluded",
+    "random_generator / random scalars are fresh formal symbols (uniformity of the real samplers: C10)",
+]
+WKD_EXPL = ("Per-operation proof at the group level: the real bodies of src/wkdibe/api.cpp (clang AST) are executed symbolically for every slot pattern, every permitted attribute-list shape and "
+            "both flags up to the stated slot count l; identities, messages, randomness and discrete logs stay symbolic, so each run decides its obligations for ALL values (polynomial identity mod r; "
+            "z3 for the integer side conditions of the 256-bit scalar code, with the model replayed natively). Because well-formedness is established by keygen and preserved by every step, every finite "
+            "history yields a well-formed key (induction over histories, on paper). Bounded in l only; reported as bounded obligations, not as discharged proof obligations.")
+META = {
+    "C11": dict(level="other", explanation=WKD_EXPL, assumptions=GROUP_ASSUME),
+    "C12": dict(level="other", explanation=WKD_EXPL, assumptions=GROUP_ASSUME),
+    "C13": dict(level="other", explanation=WKD_EXPL, assumptions=GROUP_ASSUME),
+    "C14": dict(level="other", explanation=WKD_EXPL, assumptions=GROUP_ASSUME),
+    "C16": dict(level="proof", assumptions=GROUP_ASSUME + ["Encoding::encode and Fq12::write_big_endian are injective byte encodings of the group element (C09, C04)"]),
+}
